@@ -30,7 +30,7 @@ def shards(tier):
 
 def gates(c, tier):
     need = ["int-write", "int-read-padded", "int-read-random", "enum", "tag", "tag-multioctet", "len-long", "bool", "octets", "nest",
-            "child-refuses-sibling", "reader-op-sequences", "writable-input", "truncated-with-header", "repo-tests-under-contracts:runs", "contract:_pack_asn1_integer", "contract:_read_asn1_integer", "contract:_pack_asn1",
+            "child-refuses-sibling", "reader-op-sequences", "writable-input", "truncated-with-header", "header-truncations", "repo-tests-under-contracts:runs", "contract:_pack_asn1_integer", "contract:_read_asn1_integer", "contract:_pack_asn1",
             "contract:_read_asn1_header"]  # the four primitives the repository's tests also name; the two octet-number helpers are
     # checked when present (evidence) but may be renamed by a refactor without making this check inconclusive
     return [f"never exercised: {k}" for k in need if c.get(k, 0) == 0]
@@ -132,6 +132,31 @@ def chk_truncated_with_header(r):
             pass
         except Exception as e:
             out.append((f"truncated-value-exc:{kind}:{type(e).__name__}", f"truncated {kind}: {type(e).__name__}: {e} (expected NotEnougData)"))
+    return out
+
+
+def chk_header_truncations(r):
+    """Every proper prefix of an identifier+length header (incl. zero-padded long forms) must be refused with
+    NotEnougData by peek_header and by the read functions - never read as a shorter number."""
+    out = []
+    cls = r.randrange(1, 4)
+    num = r.choice([0, 5, 30, 31, 127, 128, 16384])
+    n = r.choice([0, 1, 127, 128, 255, 256, 300, 65536])
+    lo = ber.length_octets(n, r.choice(["min", 1, 2, 3, 4, 5]))
+    hdr = ber.ident_octets(cls, False, num) + lo
+    data = hdr + b"\x00" * min(n, 8)
+    for cut in range(0, len(hdr)):
+        for fn in ("peek", "read"):
+            rd = A.ASN1Reader(data[:cut])
+            try:
+                got = rd.peek_header() if fn == "peek" else rd.read_octet_string(tag=A.ASN1Tag(A.TagClass(cls), num, False))
+                out.append((f"truncated-header-accepted:{fn}", f"header {hdr.hex()} cut after {cut} octets was read as {got!r}"))
+                return out
+            except A.NotEnougData:
+                pass
+            except Exception as e:
+                out.append((f"truncated-header-exc:{type(e).__name__}", f"header {hdr.hex()} cut after {cut} octets: {type(e).__name__}: {e}"))
+                return out
     return out
 
 
@@ -425,6 +450,10 @@ def run_case(kind, args):
         return chk_tree(_untree(args[0]), bytes(args[1]))
     if kind == "writable":
         return chk_writable_input(args[0], args[1])
+    if kind == "hdrtrunc":
+        import random as _random
+
+        return chk_header_truncations(_random.Random(args[0]))
     if kind == "truncated":
         import random as _random
 
@@ -515,6 +544,7 @@ def run_shard(ctx: Ctx, acc: Acc):
         acc.count("octets")
         do("writable", (gv.g_int(r), i % 2), True, "writable-input")
         do("truncated", (r.randrange(1 << 60),), True, "truncated-with-header")
+        do("hdrtrunc", (r.randrange(1 << 60),), True, "header-truncations")
         if i % 2 == 0:
             do("readerops", (r.randrange(1 << 60), r.choice([2, 3, 5, 9]), r.choice(TRAILERS)), True, "reader-op-sequences")
         if i % 4 == 0:
